@@ -90,6 +90,22 @@ Theorem C17_old_fields_needs_covers_refuted :
 Proof. exact old_fields_needs_covers_refuted. Qed.
 Print Assumptions C17_old_fields_needs_covers_refuted.
 
+(* FOUND BY THIS CHECK (C17-fix2-1): at /repo HEAD the dry run could register
+   the re-read variables under netCDF dimensions they do not have in the file
+   (then [covers] fails and an appended field is given a coordinate variable
+   on another dimension); with the repair the same request is written
+   correctly and [covers] holds. *)
+Theorem C17_dry_run_dimension_refuted :
+  let bad := fst (append head_code true no_opts file_two [fq; fr] [fnew]) in
+  let good := fst (append new_code true no_opts file_two [fq; fr] [fnew]) in
+  dims_of_var bad "n" = ["time"] /\ refs_of bad "n" = [("coordinates", [("", "A_t"); ("", "B_d")])] /\
+  dims_of_var bad "B_d" = ["d_time"] /\
+  dims_of_var good "n" = ["time"] /\ refs_of good "n" = [("coordinates", [("", "A_t"); ("", "auxiliary")])] /\
+  dims_of_var good "auxiliary" = ["time"] /\
+  covers head_code file_two [fq; fr] = false /\ covers new_code file_two [fq; fr] = true.
+Proof. exact dry_run_dimension_refuted. Qed.
+Print Assumptions C17_dry_run_dimension_refuted.
+
 (* The frame property of the reader that the theorem above rests on, for any
    extension of a file (not only the writer's). *)
 Theorem C17_old_fields_frame :
